@@ -10,10 +10,10 @@ package compose_test
 // the driver through the current-case file).
 
 import (
-	"regexp"
 	"context"
 	"errors"
 	"fmt"
+	"regexp"
 	"strings"
 	"testing"
 
@@ -253,6 +253,12 @@ func checkC13(c CaseC13) (*vkit.Failure, vkit.Meta) {
 				if viaChain {
 					if strings.Count(got, ",") == strings.Count(want, ",") && (got == "") == (want == "") {
 						got = want
+					}
+				}
+				for _, alt := range ref.FailPaths {
+					// another graph node of the same step ran out of steps too: either may be reported
+					if a := strings.ReplaceAll(alt, "/", ", "); a == got && !viaChain {
+						want = got
 					}
 				}
 				if got != want {
